@@ -417,15 +417,21 @@ theorem apiDouble_correct {x y : Nat} (h : Valid (dec x y)) :
   obtain ⟨v, e⟩ := double_correct_J v1
   exact toAffine_eq_enc v (padd_valid h h) (by rw [e, e1, pt_padd h h])
 
-/-- `Curve.IsOnCurve` is the spec's curve test, for all inputs (reduced or not) -/
-theorem isOnCurve_eq (x y : Nat) : isOnCurve x y = onCurve x y := by
+/-- the field computation of `Curve.IsOnCurve` is the spec's curve equation, for all inputs (reduced or not) -/
+theorem isOnCurve_core (x y : Nat) :
+    ((Fp.ofNat x * Fp.ofNat x * Fp.ofNat x + fa * Fp.ofNat x + ⟨b⟩) == Fp.ofNat y * Fp.ofNat y) = onCurve x y := by
   rw [Bool.eq_iff_iff, onCurve_iff, ECFormulas.equation_iff_onCurve W_short, ECFormulas.OnCurve]
-  unfold isOnCurve
   simp only [beq_iff_eq]
   rw [← val_inj (red_add _ _) (red_mul _ _)]
   simp only [val_add, val_mul, val_ofNat, val_fa]
   rw [show val (⟨b⟩ : Fp) = (b : F) from rfl]
   constructor <;> intro h <;> linear_combination -h
+
+/-- `Curve.IsOnCurve` (as repaired): both coordinates are field elements and satisfy the spec's curve equation -/
+theorem isOnCurve_eq (x y : Nat) : isOnCurve x y = (decide (x < p) && decide (y < p) && onCurve x y) := by
+  unfold isOnCurve
+  simp only
+  rw [isOnCurve_core]
 
 /-! ## J5. The cubic x³ + a·x + b has no root mod p (no point of order 2) -/
 
